@@ -217,6 +217,20 @@ def run_c04(pid):
             plan_list.append({"id": pid_n, "channels": 1, "bps": 16, "rate": 44100, "selfcheck": False, "class": "tiny-block-po",
                               "frames": [{"bs": bs, "subs": [{"type": "fixed", "order": 0, "method": 0, "po": 0, "params": [["rice", 2]], "ov": {"po": po}}]}],
                               "pcm": [[(i * 7) % 11 - 5 for i in range(bs)]]})
+    # side / mid channels unrelated to the other channel, at the extremes of their depth (decorrelation arithmetic)
+    for bps in (8, 16, 24, 31):
+        lo, hi = -(1 << bps), (1 << bps) - 1          # the side channel is one bit wider
+        for assign in ("ls", "sr", "ms"):
+            for vals in ([lo], [hi], [lo, hi], [hi, hi, lo, 0, -1, 1]):
+                pid_n += 1
+                side_first = assign == "sr"
+                raw = {"type": "verbatim", "ov": {"samples": vals}}
+                plain = {"type": "verbatim"}
+                edge = [(-(1 << (bps - 1))), (1 << (bps - 1)) - 1]
+                plan_list.append({"id": pid_n, "channels": 2, "bps": bps, "rate": 44100, "selfcheck": False, "class": "raw-side",
+                                  "bpscode": "hdr" if bps in (8, 16, 24) else "si",
+                                  "frames": [{"bs": 16, "chassign": assign, "subs": [raw, plain] if side_first else [plain, raw]}],
+                                  "pcm": [[edge[i % 2] for i in range(16)], [edge[(i + 1) % 2] for i in range(16)]]})
     gen = generate(wd, plan_list, "mal")
     by_plan = {p["id"]: p for p in plan_list}
     items = []
